@@ -2,9 +2,11 @@
 import Mpir.Proto
 import Mpir.Model.Mulmod2expm1
 import Mpir.Ops.Hgcd
+import Mpir.Ops.PowmLimb
+import Mpir.Model.PowmReal
 import Mpir.Gen.Params
 namespace Mpir.Ops.Mulmod2expm1
-open Mpir Mpir.Mm1
+open Mpir Mpir.Mm1 Mpir.Powm Mpir.PowmL Mpir.PowmR
 
 private def thr : Nat := Mpir.Gen.params.MULMOD_2EXPM1_THRESHOLD.toNat
 
@@ -22,6 +24,19 @@ def handle : Handler
       let rn := rn.toNat
       if 0 < b.length && b.length ≤ a.length && a.length ≤ rn then
         some (out (bnm1 thr Fft.mulmod_2expp1_basecase rn a b))
+      else none
+  | "mpn_redc_n_r", [.vec u, .vec m, .vec ip] =>
+      -- redc_n.c: ASSERT (n > 8); ip the inverse of m modulo B^n (any other ip: op mpn_redc_n_l)
+      let n := m.length
+      if n > 8 && u.length = 2 * n && ip.length = n && (val ip * val m) % B ^ n = 1 then
+        some (out (redcNR thr Fft.mulmod_2expp1_basecase (Mpir.Ops.PowmLimb.nextSize n) u m ip))
+      else none
+  | "mpn_powm_r", [.vec b, .vec e, .vec m] =>
+      let n := m.length
+      if n ≥ 1 && m.headD 0 % 2 == 1 && m.getLastD 0 != 0 && e.getLastD 0 != 0 && val e > 1 && b.length ≥ 1 then
+        let itch := max (Mpir.Ops.PowmLimb.binvItch n) (2 * n)
+        some (out (mpnPowmMemR REDC_1_TO_REDC_N_THRESHOLD thr Fft.mulmod_2expp1_basecase Mpir.Ops.PowmLimb.nextSize
+          Mpir.Ops.PowmLimb.binvItch itch b e m))
       else none
   | "mpn_mulmod_bnm1_next_size", [.num n] =>
       if n ≥ 1 then some [natTok (Mpir.Ops.Hgcd.nextSize n.toNat)] else none
